@@ -207,6 +207,23 @@ class Repo:
         for c in self.classes.values():
             c.mro = mro(c, {c})
 
+    def enum_truth(self, expr):
+        """Constant truth value of `EnumClass.MEMBER` used as a condition, else None."""
+        if not (isinstance(expr, ast.Attribute) and isinstance(expr.value, ast.Name)):
+            return None
+        c = self.classes.get(expr.value.id)
+        if c is None or not c.is_subclass_of('Enum') and 'Enum' not in c.base_names:
+            return None
+        for b in c.node.body:
+            if isinstance(b, ast.Assign) and any(
+                    isinstance(t, ast.Name) and t.id == expr.attr for t in b.targets):
+                if any(x in c.base_names for x in ('str', 'int', 'float')):
+                    if isinstance(b.value, ast.Constant):
+                        return bool(b.value.value)
+                    return None
+                return True
+        return None
+
     def cls(self, name):
         c = self.classes.get(name)
         if c is None:
